@@ -1,7 +1,11 @@
 import NeumannModel.Parse.Lemmas
 /-
-  C15 — property theorems for the expression parser model (Pratt core of
-  `neumann_parser/src/expr.rs`; `parseNoLimit` = the copy embedded in `parser.rs`).
+  C15 — property theorems for the expression parser model.  `parse` is the Pratt core of BOTH
+  real parsers: `ExprParser` (`neumann_parser/src/expr.rs`) and, since /repo 59c7cb56, the copy
+  embedded in the statement parser (`parser.rs`, `Parser::parse_expr_bp` with the same
+  `MAX_DEPTH = 64` counter).  `parseNoLimit` is the statement parser's loop as it was BEFORE that
+  fix (no counter); it appears only in the `…_witness` theorems at the end, which record what the
+  pre-fix code did and that the fix changed nothing else.
   ONLY property statements and their non-vacuity examples live here.
 
   Scope: atoms (every primary and every postfix form is an opaque atom), `*`, `()`, the 19 binary
@@ -177,19 +181,6 @@ theorem bang_is_not (ts : List Tok) : parse (ts.map normBang) = parse ts := by
 example : [Tok.bang, .atom 1, .op .and, .bang, .bang, .atom 2].map normBang
     = [.notKw, .atom 1, .op .and, .notKw, .notKw, .atom 2] := by rfl
 
-/-- The Pratt loop embedded in the statement parser (`parser.rs`, no depth counter) round-trips
-    every expression at EVERY depth: nothing but the machine stack bounds its recursion. -/
-theorem parseNoLimit_printWith (extra : Expr → Bool) (e : Expr) :
-    parseNoLimit (printWith extra e) = .ok e := by
-  have hlen := frames_le_length extra e
-  have hk := K extra ((printWith extra e).length + 2) e 0 0 [] (e, []) (Nat.zero_le _)
-    (by cases e <;> simp [StopAbove, headStops]) (by omega) (loops_stop (by simp [headStops]))
-  obtain ⟨f, hf⟩ := hk
-  rw [List.append_nil] at hf
-  have := at_fuelFor _ hf (by simp)
-  unfold parseNoLimit
-  rw [this]; rfl
-
 /-- Beyond the limit: any chain of at least `MAX_DEPTH` nesting tokens (`(`, prefix `-`, `NOT`,
     `!`, `~`, in any mixture) makes `parse` answer `TooDeep`, positioned at the token where frame
     65 would start, whatever follows (except that `()` directly after the chain is the empty
@@ -203,24 +194,6 @@ theorem too_deep_is_error (pre rest : List Tok) (hp : ∀ t ∈ pre, isNester t 
   rw [this]
   simp [finish]
 
-/-- …and it is the limit, not the shape, that causes the error: the same input parses without it -/
-theorem too_deep_only_because_of_limit (n k : Nat) :
-    parseNoLimit (List.replicate n (Tok.op .sub) ++ [Tok.atom k])
-      = .ok (Nat.repeat (Expr.un .neg) n (.atom k)) := by
-  have h : ∀ n, printWith (fun _ => false) (Nat.repeat (Expr.un .neg) n (.atom k))
-      = List.replicate n (Tok.op .sub) ++ [Tok.atom k] := by
-    intro n
-    induction n with
-    | zero => rfl
-    | succ n ih =>
-      have hb : ∀ n, topBp (Nat.repeat (Expr.un .neg) n (.atom k)) = 100 := by
-        intro n; cases n <;> rfl
-      simp only [Nat.repeat, printWith, unTok, hb, Bool.false_or, ih, List.replicate_succ,
-        List.cons_append]
-      simp [wrap, PREFIX_BP]
-  rw [← h n]
-  exact parseNoLimit_printWith _ _
-
 -- 64 prefix operators need 65 frames: the hypothesis of `parse_printWith_too_deep` is satisfiable
 example : MAX_DEPTH < framesMin (Nat.repeat (Expr.un .neg) 64 (.atom 0)) := by decide
 example : ∀ t ∈ [Tok.lparen, .op .sub, .notKw, .bang, .tilde], isNester t = true := by decide
@@ -230,5 +203,92 @@ example : parse (List.replicate 64 (Tok.op .sub) ++ [.atom 0]) = .error (.tooDee
 set_option maxRecDepth 8000 in
 example : parse (List.replicate 64 Tok.lparen ++ .atom 0 :: List.replicate 64 Tok.rparen)
     = .error (.tooDeep 65) := by rfl
+
+/-! ### the statement parser before and after 59c7cb56 (regression witnesses)
+
+`parseNoLimit` is the Pratt loop of `parser.rs` as it was before the fix: no depth counter, so
+nothing but the machine stack bounded its recursion (finding
+`neumann_parser::Parser::parse_expr_bp/stack_overflow`, fixed).  The theorems below describe that
+old code and its relation to the current one; they are not claims about /repo HEAD except
+`depth_limit_fix_is_conservative`. -/
+
+/-- The fix is conservative: on every token list the old loop and the current parser give the same
+    answer unless the current one says `TooDeep` — the counter changed the behaviour of exactly the
+    inputs that need more than `MAX_DEPTH` nested frames. -/
+theorem depth_limit_fix_is_conservative (ts : List Tok) (h : ∀ k, parse ts ≠ .error (.tooDeep k)) :
+    parseNoLimit ts = parse ts := by
+  unfold parse parseWith at h ⊢
+  unfold parseNoLimit
+  have h64 : notDeep (parseBpN MAX_DEPTH (fuelFor ts) 0 0 ts) := by
+    cases hp : parseBpN MAX_DEPTH (fuelFor ts) 0 0 ts with
+    | ok p => trivial
+    | error e =>
+      cases e with
+      | tooDeep k => rw [hp] at h; exact absurd rfl (h k)
+      | _ => trivial
+  have hroom : notDeep (parseBpN (ts.length + 2) (fuelFor ts) 0 0 ts) :=
+    (room_no_too_deep (ts.length + 2) (fuelFor ts)).1 0 0 ts (by omega)
+  have a := (limit_mono (Nat.le_max_left MAX_DEPTH (ts.length + 2)) (fuelFor ts)).1 0 0 ts h64
+  have b := (limit_mono (Nat.le_max_right MAX_DEPTH (ts.length + 2)) (fuelFor ts)).1 0 0 ts hroom
+  rw [← a, b]
+
+-- both sides of the hypothesis occur: a shallow input, and one the limit rejects
+example : parseNoLimit [.atom 1, .op .add, .lparen, .atom 2, .rparen] = parse [.atom 1, .op .add, .lparen, .atom 2, .rparen] := by rfl
+example : ∀ k, parse [.atom 1, .op .add, .lparen, .atom 2, .rparen] ≠ .error (.tooDeep k) := by
+  intro k h
+  have : parse [.atom 1, .op .add, .lparen, .atom 2, .rparen] = .ok (.bin (.atom 1) .add (.atom 2)) := by rfl
+  rw [this] at h; cases h
+
+/-- The old loop never answered `TooDeep`: every frame consumes a token before opening the next,
+    so its recursion depth was bounded by the input length only. -/
+theorem parseNoLimit_never_too_deep_witness (ts : List Tok) (k : Nat) :
+    parseNoLimit ts ≠ .error (.tooDeep k) := by
+  unfold parseNoLimit
+  have hroom := (room_no_too_deep (ts.length + 2) (fuelFor ts)).1 0 0 ts (by omega)
+  cases hp : parseBpN (ts.length + 2) (fuelFor ts) 0 0 ts with
+  | ok p => obtain ⟨e, r⟩ := p; cases r <;> simp [finish]
+  | error e =>
+    rw [hp] at hroom
+    cases e <;> simp_all [finish, notDeep]
+
+/-- The old loop round-tripped every expression at EVERY depth… -/
+theorem parseNoLimit_printWith_witness (extra : Expr → Bool) (e : Expr) :
+    parseNoLimit (printWith extra e) = .ok e := by
+  have hlen := frames_le_length extra e
+  have hk := K extra ((printWith extra e).length + 2) e 0 0 [] (e, []) (Nat.zero_le _)
+    (by cases e <;> simp [StopAbove, headStops]) (by omega) (loops_stop (by simp [headStops]))
+  obtain ⟨f, hf⟩ := hk
+  rw [List.append_nil] at hf
+  have := at_fuelFor _ hf (by simp)
+  unfold parseNoLimit
+  rw [this]; rfl
+
+/-- …in particular `n` prefix operators opened `n + 1` nested frames for every `n` (the stack
+    overflow), where the current parser stops at 64: the two differ on exactly these inputs. -/
+theorem parseNoLimit_unbounded_recursion_witness (n k : Nat) :
+    parseNoLimit (List.replicate n (Tok.op .sub) ++ [Tok.atom k])
+      = .ok (Nat.repeat (Expr.un .neg) n (.atom k)) ∧
+    (MAX_DEPTH ≤ n → parse (List.replicate n (Tok.op .sub) ++ [Tok.atom k])
+      = .error (.tooDeep (n - MAX_DEPTH + 1))) := by
+  constructor
+  · have h : ∀ n, printWith (fun _ => false) (Nat.repeat (Expr.un .neg) n (.atom k))
+        = List.replicate n (Tok.op .sub) ++ [Tok.atom k] := by
+      intro n
+      induction n with
+      | zero => rfl
+      | succ n ih =>
+        have hb : ∀ n, topBp (Nat.repeat (Expr.un .neg) n (.atom k)) = 100 := by
+          intro n; cases n <;> rfl
+        simp only [Nat.repeat, printWith, unTok, hb, Bool.false_or, ih, List.replicate_succ,
+          List.cons_append]
+        simp [wrap, PREFIX_BP]
+    rw [← h n]
+    exact parseNoLimit_printWith_witness _ _
+  · intro hn
+    have := too_deep_is_error (List.replicate n (Tok.op .sub)) [Tok.atom k]
+      (by intro t ht; rw [List.eq_of_mem_replicate ht]; rfl) (by simpa using hn) (by simp)
+    simpa using this
+
+example : (parseNoLimit (List.replicate 64 (Tok.op .sub) ++ [.atom 0])).isOk = true := by decide
 
 end Neumann.Parse.Props
